@@ -9,23 +9,23 @@ import family
 from common import Ctx, MachineryError, pmap
 
 ALL_ATTRS = set(cellformat.ATTRS)
-STRATS = {"plain", "pbnp", "pbspan", "pbcol", "subline"}
+STRATS = {"plain", "pbnp", "pbspan", "pbcol", "subline", "pb2span", "subpb"}
 # deviation flag: does the code under test restart matrix attributes at every page?
 IMPL_REBASE = False
 
 GEN = {
-    "quick": [dict(consts=dict(NSet={4}, MSet={2}, StratSet=STRATS, GPosSet={"first", "last"}, CapSet={2}, ShapeSet={"scalar", "col", "matrix"},
+    "quick": [dict(consts=dict(NSet={4}, MSet={2}, StratSet=STRATS, GPosSet={"first", "last"}, G2Set={"adjacent", "apart"}, CapSet={2}, ShapeSet={"scalar", "col", "matrix"},
                                AttrSet=ALL_ATTRS, SaltSet={1})),
-              dict(consts=dict(NSet={1, 7, 16, 40}, MSet={1, 2, 4, 6}, StratSet=STRATS, GPosSet={"first", "middle", "last"}, CapSet={1, 3, 5, 100},
+              dict(consts=dict(NSet={1, 7, 16, 40}, MSet={1, 2, 4, 6}, StratSet=STRATS, GPosSet={"first", "middle", "last"}, G2Set={"adjacent", "apart"}, CapSet={1, 3, 4, 5, 7, 100},
                                ShapeSet={"scalar", "col", "matrix"}, AttrSet=ALL_ATTRS, SaltSet={0, 1, 2, 3, 4}), simulate=700)],
-    "thorough": [dict(consts=dict(NSet={3, 5}, MSet={1, 3}, StratSet=STRATS, GPosSet={"first", "middle", "last"}, CapSet={2, 3}, ShapeSet={"scalar", "col", "matrix"},
+    "thorough": [dict(consts=dict(NSet={3, 5}, MSet={1, 3}, StratSet=STRATS, GPosSet={"first", "middle", "last"}, G2Set={"adjacent", "apart"}, CapSet={2, 3}, ShapeSet={"scalar", "col", "matrix"},
                                   AttrSet=ALL_ATTRS, SaltSet={0, 2})),
-                 dict(consts=dict(NSet={1, 7, 16, 40}, MSet={1, 2, 4, 6}, StratSet=STRATS, GPosSet={"first", "middle", "last"}, CapSet={1, 3, 5, 100},
+                 dict(consts=dict(NSet={1, 7, 16, 40}, MSet={1, 2, 4, 6}, StratSet=STRATS, GPosSet={"first", "middle", "last"}, G2Set={"adjacent", "apart"}, CapSet={1, 3, 4, 5, 7, 100},
                                   ShapeSet={"scalar", "col", "matrix"}, AttrSet=ALL_ATTRS, SaltSet={0, 1, 2, 3, 4}), simulate=12000)],
 }
-MODEL = {"quick": dict(NSet={4}, MSet={2}, StratSet=STRATS, GPosSet={"first", "last"}, CapSet={2}, ShapeSet={"scalar", "col", "matrix"},
+MODEL = {"quick": dict(NSet={4}, MSet={2}, StratSet=STRATS, GPosSet={"first", "last"}, G2Set={"adjacent", "apart"}, CapSet={2}, ShapeSet={"scalar", "col", "matrix"},
                        AttrSet={"text_font", "cell_height", "border_top"}, SaltSet={1}),
-         "thorough": dict(NSet={3, 5}, MSet={1, 3}, StratSet=STRATS, GPosSet={"first", "middle", "last"}, CapSet={2, 3},
+         "thorough": dict(NSet={3, 5}, MSet={1, 3}, StratSet=STRATS, GPosSet={"first", "middle", "last"}, G2Set={"adjacent", "apart"}, CapSet={2, 3},
                           ShapeSet={"scalar", "col", "matrix"}, AttrSet=ALL_ATTRS, SaltSet={0, 2})}
 JUDGE = ["C09_Direct", "C09_Meta", "C09_Complete", "C09_Addressed"]
 
